@@ -186,7 +186,11 @@ def timestamp_contract():
         return State.unpack_uint(wire.peek(c.st, c.value, 8))
 
     def rep(c):
-        return wire.dt_representable(I(ts(c)))
+        t = ts(c)
+        if isinstance(t, int):       # concrete (replay / bounded stand-in): seconds always fit, milliseconds up to the year 9999
+            return t <= 253402300799999
+        c.st.assume(z3.Implies(I(t) > 253402300799999, z3.Not(wire.dt_representable(I(t)))))
+        return wire.dt_representable(I(t))
 
     def out(c):
         t = I(ts(c))
